@@ -45,19 +45,20 @@ end SP
 namespace SP
 
 /-- where the first booking of task `t` on `r` lies among the slots `vis`, and what start it was given -/
-def Fst (e : Env) (σ : St) (t r : Nat) (done off : Rat) (vis : List Int) : Prop :=
+def Fst (e : Env) (σ : St) (t r : Nat) (done : Rat) (vis : List Int) : Prop :=
   (done = 0 → ∀ i ∈ vis, usageOf (σ.led.get r i).usage t = none) ∧
   (done ≠ 0 → ∃ fb, fb ∈ vis ∧ usageOf (σ.led.get r fb).usage t ≠ none ∧
       (∀ i ∈ vis, usageOf (σ.led.get r i).usage t ≠ none → fb ≤ i) ∧
-      (σ.tst t).start = some (markDate e fb off))
+      ∃ o : Rat, 0 ≤ o ∧ o ≤ (e.G : Rat) ∧ (σ.tst t).start = some (markDate e fb o))
 
 /-- `Fst` only looks at which slots carry an entry and at the start -/
-theorem Fst.transfer {e : Env} {σ σ' : St} {t r : Nat} {done off : Rat} {vis : List Int}
+theorem Fst.transfer {e : Env} {σ σ' : St} {t r : Nat} {done : Rat} {vis : List Int}
     (hent : ∀ i ∈ vis, (usageOf (σ'.led.get r i).usage t = none ↔ usageOf (σ.led.get r i).usage t = none))
-    (hst : (σ'.tst t).start = (σ.tst t).start) (h : Fst e σ t r done off vis) : Fst e σ' t r done off vis := by
+    (hst : (σ'.tst t).start = (σ.tst t).start) (h : Fst e σ t r done vis) : Fst e σ' t r done vis := by
   refine ⟨fun hd i hi => (hent i hi).mpr (h.1 hd i hi), fun hd => ?_⟩
-  obtain ⟨fb, hfb, hne, hmin, hs⟩ := h.2 hd
-  refine ⟨fb, hfb, fun hc => hne ((hent fb hfb).mp hc), fun i hi hni => hmin i hi (fun hc => hni ((hent i hi).mpr hc)), ?_⟩
+  obtain ⟨fb, hfb, hne, hmin, o, ho0, ho1, hs⟩ := h.2 hd
+  refine ⟨fb, hfb, fun hc => hne ((hent fb hfb).mp hc), fun i hi hni => hmin i hi (fun hc => hni ((hent i hi).mpr hc)),
+    o, ho0, ho1, ?_⟩
   rw [hst]; exact hs
 
 /-- invariant of the forward walk of a single-resource task -/
@@ -66,7 +67,7 @@ structure FInv (e : Env) (σ : St) (t r : Nat) (w : Walk) (vis : List Int) : Pro
   inb : t < σ.ts.size
   fwd : (σ.tst t).forward = true
   nonneg : 0 ≤ w.done
-  fst : Fst e σ t r w.done w.offset vis
+  fst : Fst e σ t r w.done vis
 
 theorem taskSecs_nonneg (e : Env) (σ : St) (h : Inv e σ) (r : Nat) (i : Int) (t : Nat) :
     0 ≤ taskSecs (σ.led.get r i) t := by
@@ -80,7 +81,7 @@ theorem book_fst (e : Env) (wf : WF e) (σ : St) (t r : Nat) (w : Walk) (vis : L
     (hinv : Inv e σ) (hlf : (e.taskD t).leaf = true) (hw : WalkOk e t w)
     (ha : (e.taskD t).hasAlloc = true) (hsel : selectedOf e σ t w = [r]) (hpos : 0 < (e.taskD t).effort)
     (h : FInv e σ t r w vis) :
-    Fst e (bookResources e σ t w).1 t r (bookResources e σ t w).2.done w.offset (w.cur :: vis) ∧
+    Fst e (bookResources e σ t w).1 t r (bookResources e σ t w).2.done (w.cur :: vis) ∧
     0 ≤ (bookResources e σ t w).2.done := by
   have hcur_notin : w.cur ∉ vis := by
     intro hin
@@ -128,9 +129,9 @@ theorem book_fst (e : Env) (wf : WF e) (σ : St) (t r : Nat) (w : Walk) (vis : L
         · exfalso; apply hne; rw [hvis i hi]; exact h.fst.1 hw0 i hi
       · rcases hs2 hw0 with ⟨hd, _⟩ | hs
         · exact absurd hd hdne
-        · exact hs
-    · obtain ⟨fb, hfb, hne, hmin, hst⟩ := h.fst.2 hw0
-      refine ⟨fb, List.mem_cons_of_mem _ hfb, by rw [hvis fb hfb]; exact hne, ?_, by rw [hs1 hw0]; exact hst⟩
+        · exact ⟨w.offset, hw.off_nonneg, hw.off_le, hs⟩
+    · obtain ⟨fb, hfb, hne, hmin, o, ho0, ho1, hst⟩ := h.fst.2 hw0
+      refine ⟨fb, List.mem_cons_of_mem _ hfb, by rw [hvis fb hfb]; exact hne, ?_, o, ho0, ho1, by rw [hs1 hw0]; exact hst⟩
       intro i hi hni
       rcases List.mem_cons.mp hi with hi | hi
       · subst hi
@@ -225,8 +226,8 @@ theorem scheduleSlot_finv (e : Env) (wf : WF e) (σ : St) (t r : Nat) (w : Walk)
     · rw [hst.1, hfr.2.2.2.1]; exact h.fwd
     · show 0 ≤ (scheduleSlot e σ t w).2.1.done
       rw [hst.2]; exact hnn1
-    · show Fst e (scheduleSlot e σ t w).1 t r (scheduleSlot e σ t w).2.1.done (scheduleSlot e σ t w).2.1.offset (w.cur :: vis)
-      rw [hst.1, hst.2, hoffw]; exact hfst
+    · show Fst e (scheduleSlot e σ t w).1 t r (scheduleSlot e σ t w).2.1.done (w.cur :: vis)
+      rw [hst.1, hst.2]; exact hfst
   · intro hc
     have hex := hsa.2 hc
     -- the finishing branch
@@ -276,9 +277,9 @@ theorem scheduleSlot_finv (e : Env) (wf : WF e) (σ : St) (t r : Nat) (w : Walk)
       · subst hi; rw [hkeep, hu]; simp
       · rw [hfr2 r i (by intro hh; exact hi hh.2.symm)]
     have hne1 : (bookResources e σ t w).2.done ≠ 0 := by grind
-    have hfst' : Fst e (scheduleSlot e σ t w).1 t r (bookResources e σ t w).2.done w.offset (w.cur :: vis) :=
+    have hfst' : Fst e (scheduleSlot e σ t w).1 t r (bookResources e σ t w).2.done (w.cur :: vis) :=
       Fst.transfer (fun i _ => hent i) hstart hfst
-    obtain ⟨fb, hfb, hfbne, hmin, hst⟩ := hfst'.2 hne1
+    obtain ⟨fb, hfb, hfbne, hmin, o, ho0, ho1, hst⟩ := hfst'.2 hne1
     have hfb_le : fb ≤ w.cur := by
       rcases List.mem_cons.mp hfb with hh | hh
       · omega
@@ -294,7 +295,7 @@ theorem scheduleSlot_finv (e : Env) (wf : WF e) (σ : St) (t r : Nat) (w : Walk)
       rcases List.mem_cons.mp hin with hh | hh
       · omega
       · have := h.acc.before i hh; simp only [if_true] at this; omega
-    · exact ⟨_, hst, markDate_in_slot e fb w.offset hw.off_nonneg hw.off_le⟩
+    · exact ⟨_, hst, markDate_in_slot e fb o ho0 ho1⟩
     · refine ⟨_, hstop, ?_⟩
       rw [finishTask_date_some e _ t _ w.done r _ hlast (by rw [hcurw]; exact hu), hcurw, hneed]
       have hs := hb.slot r w.cur
@@ -337,7 +338,7 @@ theorem walkLoop_framed (e : Env) (wf : WF e) (t r : Nat) (fuel : Nat) (σ : St)
       · simp only [hout, if_true] at hok
         exact Bool.noConfusion hok
       · simp only [hout, Bool.false_eq_true, if_false] at hok ⊢
-        exact ih _ _ _ hs.1 ⟨hw1.off_nonneg, hw1.off_le, hw1.done_le⟩
+        exact ih _ _ _ hs.1 (walkOk_advance e t wf _ _ _ hw1)
           (selectedOf_some e _ t _ [r] hsel') hlt' (hsf.1 hc) hok
     · have hc' : (scheduleSlot e σ t w).2.2 = false := by simpa using hc
       simp only [hc', Bool.not_false, if_true] at hok ⊢
